@@ -72,10 +72,39 @@ def run(ctx):
         elif len(samples) < 4 and kb is not None:
             samples.append({"hdr16": c["hdr16"], "nblocks": len(c["blocks"]), "key_len": len(c["key"]), "mask": c["mask"],
                             "key_block_len": len(kb), "roundtrip": "ok on impl and model"})
-    return {"evaluations": len(cases), "distinct_nontrivial": len(seen), "samples": samples, "distribution": dist,
+    # --- one reused KeyBlock: wrap, reassign kbpk / change fields, wrap again; each block must open with the then-current kbpk
+    rng = ctx.rng
+    seqs = []
+    for v in "ABCD":
+        for _ in range(ctx.n(4, 20)):
+            c = t.gen_case(rng, version=v, profile=rng.choice(["none", "few"]), keylen=rng.choice([8, 16, 24]), mask=None)
+            k2 = rng.randbytes(len(c["kbpk"]))
+            k3 = rng.randbytes(rng.choice(t.KBPK_SIZES[v]))
+            key2 = rng.randbytes(16)
+            ops = t.setup_ops(c) + [("W", c["key"], c["mask"]), ("K", k2), ("W", key2, None), ("K", k3), ("W", c["key"], 40),
+                                    ("K", c["kbpk"]), ("W", key2, None)]
+            seqs.append((c["kbpk"], ops))
+    both, mops = t.run_both(seqs)
+    for (kbpk, ops), (impl, model) in zip(seqs, both):
+        if impl != model:
+            diffs.append({"sequence": [core.op_token(o_)[:60] for o_ in ops], "impl": [impl[0][:80]] + [x[:50] for x in impl[1]],
+                          "model": [model[0][:80]] + [x[:50] for x in model[1]]})
+        cur = kbpk
+        for o_, out in zip(ops, impl[1]):
+            if o_[0] == "K":
+                cur = o_[1]
+            if o_[0] == "W" and out.startswith("str:"):
+                u = t.impl_unwrap(cur, core.unshow_str(out[4:]))
+                if u[0] != "OK" or u[2] != core.show(o_[1]):
+                    viol.append({"what": "key block wrapped by a reused object (after kbpk reassignment) does not unwrap with the current KBPK",
+                                 "input": {"kbpk": kbpk.hex(), "ops": [core.op_token(x)[:120] for x in ops]},
+                                 "expected": core.show(o_[1]), "observed": [str(x)[:80] for x in u]})
+    dist["reused_object_sequences"] = len(seqs)
+    return {"evaluations": len(cases) + len(seqs), "distinct_nontrivial": len(seen), "samples": samples, "distribution": dist,
             "diffs": diffs, "violations": viol,
             "rule": "versions A-D x admissible KBPK sizes x header alphabets incl. non-default reserved x block layouts (none/few/"
                     "251-252 boundary and extended/97-100 blocks/near 9999 total) x key lengths (every residue, up to 4900) x mask "
                     "{None, negative, below, equal, above}; impl: unwrap(wrap(x)) = (header, key) and header unchanged; model run "
-                    "with the recovered tape must give the same wrap verdict and unwrap result; distinct_nontrivial = distinct "
+                    "with the recovered tape must give the same wrap verdict and unwrap result; plus wrap sequences on one reused "
+                    "KeyBlock with kbpk reassigned in between (each block must open under the then-current KBPK; impl = model); distinct_nontrivial = distinct "
                     "successful (version, kbpk size, key length, mask, block count)"}
